@@ -289,15 +289,35 @@ def build_F(Fspec):
 
 
 def snapshot_kripke(K):
-    """Deep snapshot of the caller-visible content of a structure."""
-    states = [enc_value(s) for s in K.states()]
-    trans = sorted(([enc_value(a), enc_value(b)]
-                    for a, b in K.transitions_iter()), key=cjson)
-    labels = []
-    for s in K.states():
-        labels.append([enc_value(s),
-                       sorted((enc_value(x) for x in K.labels(s)), key=cjson)])
-    s0 = sorted((enc_value(s) for s in K.S0), key=cjson)
+    """Deep snapshot of the caller-visible content of a structure.
+
+    Read through the instance attributes rather than through labels()/next():
+    an observation must not be an event the implementation can react to (a
+    cache invalidated by every labels() call would be hidden by a snapshot
+    that calls labels()).  Falls back to the public API if the attributes do
+    not exist."""
+    nxt = getattr(K, '_next', None)
+    lab = getattr(K, '_labels', None)
+    if isinstance(nxt, dict) and isinstance(lab, dict):
+        states = [enc_value(s) for s in nxt]
+        trans = sorted(([enc_value(a), enc_value(b)]
+                        for a in nxt for b in set.__iter__(set(nxt[a]))),
+                       key=cjson)
+        labels = [[enc_value(s),
+                   sorted((enc_value(x) for x in set.__iter__(set(lab[s]))),
+                          key=cjson)] for s in lab]
+        labels.sort(key=cjson)
+    else:
+        states = [enc_value(s) for s in K.states()]
+        trans = sorted(([enc_value(a), enc_value(b)]
+                        for a, b in K.transitions_iter()), key=cjson)
+        labels = []
+        for s in K.states():
+            labels.append([enc_value(s),
+                           sorted((enc_value(x) for x in K.labels(s)),
+                                  key=cjson)])
+        labels.sort(key=cjson)
+    s0 = sorted((enc_value(s) for s in set.__iter__(set(K.S0))), key=cjson)
     return {'S': states, 'R': trans, 'L': labels, 'S0': s0}
 
 
